@@ -2,6 +2,7 @@ package main
 
 import (
 	"bytes"
+	"encoding/json"
 	"errors"
 	"io"
 	"time"
@@ -63,6 +64,20 @@ func execEncode(in val.V) val.V {
 				}
 			case 3:
 				m.Retry = time.Duration(op.At(2).Signed())
+			case 9, 10:
+				doc := append([]byte(nil), op.At(2).Bytes()...)
+				if kind == 9 {
+					var id sse.EventID
+					if id.UnmarshalJSON(doc) == nil {
+						m.ID = id
+					}
+				} else {
+					var ty sse.EventType
+					if ty.UnmarshalJSON(doc) == nil {
+						m.Type = ty
+					}
+				}
+				scribble(doc)
 			case 8:
 				// the member is overwritten by decoding a wire text into it (it may have clones that share its storage)
 				_ = m.UnmarshalText([]byte("data: " + op.At(2).Str() + "\n\n"))
@@ -106,7 +121,7 @@ func execEncode(in val.V) val.V {
 	})
 }
 
-var payloadPieces = []string{"message", "Message", "a", "b c", "", " ", ":", "\n", "\r", "\r\n", "\n\n", "\r\r\n", "id: x", "data: y", "event: z", "retry: 5", "data:", "\x00", "\xef\xbb\xbf", "é", "\xff", ": c", "data", "  x", "\n\ndata: injected\n\n", "\nid: 9", "\revent: e"}
+var payloadPieces = []string{"\x0b", "\x0c", "a\fb", "\x1e", "\u0085", "\u2028", "\t", "\x08", "message", "Message", "a", "b c", "", " ", ":", "\n", "\r", "\r\n", "\n\n", "\r\r\n", "id: x", "data: y", "event: z", "retry: 5", "data:", "\x00", "\xef\xbb\xbf", "é", "\xff", ": c", "data", "  x", "\n\ndata: injected\n\n", "\nid: 9", "\revent: e"}
 
 // lengths around the sizes of buffers an encoder might use
 var boundaryLens = []int{55, 56, 57, 58, 59, 60, 61, 62, 63, 64, 65, 66, 120, 121, 122, 126, 127, 128, 129, 250, 254, 255, 256, 257, 506, 510, 511, 512, 513, 1018, 1022, 1023, 1024, 1025, 4088, 4090, 4094, 4095, 4096, 4097}
@@ -177,12 +192,36 @@ func genEncodeOps(c *Ctx, ops []val.V, t int, withNul bool) []val.V {
 		case x < 93:
 			ops = append(ops, val.L(val.N(3), tv, val.Z(retryValues[r.Intn(len(retryValues))])))
 			c.Count("op:retry")
-		default:
+		case x < 96:
 			ops = append(ops, val.L(val.N(8), tv, val.S(rng.Pick(r, []string{"fresh", "x", "message", "id: 7", " lead"}))))
 			c.Count("op:unmarshal-into")
+		default:
+			text := genPayload(r)
+			if !withNul {
+				text = string(bytes.ReplaceAll([]byte(text), []byte{0}, []byte("0")))
+			}
+			ops = append(ops, jsonOp(uint64(9+r.Intn(2)), tv, text, r.Intn(3)))
+			c.Count("op:id-or-type-through-json")
 		}
 	}
 	return ops
+}
+
+// jsonOp sets the ID / type through UnmarshalJSON: how = 0 a proper JSON encoding of the text, 1 the text between
+// quotes as it is (raw control characters included), 2 the text itself as the document.
+func jsonOp(kind uint64, tv val.V, text string, how int) val.V {
+	var doc []byte
+	switch how {
+	case 0:
+		doc, _ = json.Marshal(text)
+	case 1:
+		doc = []byte("\"" + text + "\"")
+	default:
+		doc = []byte(text)
+	}
+	var s string
+	err := json.Unmarshal(doc, &s)
+	return val.L(val.N(kind), tv, val.B(doc), val.Opt(val.S(s), err == nil))
 }
 
 func dataOp(t int, s string) val.V { return val.L(val.N(0), val.Int(t), val.N(0), val.L(val.S(s))) }
@@ -213,6 +252,19 @@ func genEncode(c *Ctx) {
 			c.Emit(val.List(append(append([]val.V{}, pre...), op, dataOp(1, "two"))))
 			c.Emit(val.List(append(append([]val.V{}, pre...), dataOp(1, "two"), op)))
 			c.Emit(val.List(append(append([]val.V{}, pre...), op)))
+		}
+	}
+	// exhaustive: every payload piece as ID and type through UnmarshalJSON, in the three document forms
+	for _, p := range payloadPieces {
+		for kind := uint64(9); kind <= 10; kind++ {
+			for how := 0; how < 3; how++ {
+				if kind == 9 && bytes.IndexByte([]byte(p), 0) >= 0 {
+					continue
+				}
+				pre := []val.V{val.L(val.N(1), val.N(0), val.S("first")), dataOp(0, "one"), val.L(val.N(5), val.N(0)), val.L(val.N(5), val.N(0)), dataOp(2, "three")}
+				c.Count("exhaustive-json-route")
+				c.Emit(val.List(append(append([]val.V{}, pre...), jsonOp(kind, val.N(1), p, how), dataOp(1, "two"))))
+			}
 		}
 	}
 	// exhaustive: one data / comment line of every length 0..300 and around larger powers of two, between two other messages
